@@ -93,6 +93,7 @@ def run(v):
                                 {"asn1": asnprint.definition(c["ast"]), "expected_canon": c["canon"], "parsed_canon": got}, "def_%04d.json" % nbad)
     checked += module_level(v, d)
     checked += module_universe(v, d)
+    checked += literal_universe(v, d)
     v.cov["traces_validated_against_impl"] += checked
     v.cov["evaluations"] += checked
     v.cov["distinct_nontrivial"] = len(cases)
@@ -102,12 +103,13 @@ def run(v):
                      "bits), SEQUENCE OF / SET OF incl. nesting, SEQUENCE / SET with 1-3 components drawn from 10 types x 6 tags (none, context, "
                      "APPLICATION, PRIVATE, UNIVERSAL) x {mandatory, OPTIONAL, DEFAULT literal of each kind} with the extension marker at every "
                      "position, CHOICE with 1-3 alternatives, references, definition-level tags: %d definitions (one TLC state each, all "
-                     "non-trivial) + module-level forms (OIDs, IMPORTS, value references). Each is printed to ASN.1 text, parsed and resolved "
+                     "non-trivial) + module-level forms (OIDs, IMPORTS, value references) + MC_Literals (every hstring <= 4 digits, bstring <= 10 bits "
+                     "and patterns around 16 / 24 / 32 / 64 bits as value assignment and DEFAULT). Each is printed to ASN.1 text, parsed and resolved "
                      "by the real front end; a canonical JSON projection of the public model fields must equal Grammar!Canon (definition "
                      "order, names, kinds, ranges, named numbers, sizes + extensibility, tags with class, OPTIONAL/DEFAULT + literals, marker "
                      "position)." % len(cases))
     v.cov["samples"] = [{"asn1": asnprint.definition(c["ast"]), "canon": c["canon"]} for c in cases[7::max(1, len(cases) // 4)][:4]]
-    v.cov["checker_cmd"] = "tlc MC_Grammar; tlc MC_Modules; tools/asnprint.py; harness frontend canon / canon1"
+    v.cov["checker_cmd"] = "tlc MC_Grammar; tlc MC_Modules; tlc MC_Literals; tools/asnprint.py; harness frontend canon / canon1"
     v.assumptions += ["the printer (tools/asnprint.py) emits exactly one spelling per AST node; layout variation is C13's subject",
                       "subset as parsed by asn1rs (no extension groups, no second marker, marker after at least one component)"]
 
@@ -184,6 +186,67 @@ def module_universe(v, d):
             if nbad <= 20:
                 v.violation("%s: %s" % (why, tx.strip()[:160]), {"module": tx, "declared": m, "parsed": r}, "modules_%03d.json" % nbad)
     return len(mods)
+
+
+def literal_text(c):
+    if c["kind"] == "str":
+        return '"%s"' % "".join(chr(x) for x in c["src"])
+    if c["kind"] == "hex":
+        digits = "".join("0123456789abcdef"[x] if c["lower"] else "0123456789ABCDEF"[x] for x in c["src"])
+        return "'%s'%s" % (digits, "h" if c["lower"] else "H")
+    return "'%s'%s" % ("".join(str(x) for x in c["src"]), "b" if c["lower"] else "B")
+
+
+def literal_universe(v, d):
+    """MC_Literals: every short hstring / bstring as value assignment and as DEFAULT of OCTET STRING / BIT STRING components."""
+    vec = os.path.join(d, "literals.ndjson")
+    t = run_tlc("C07", "MC_Literals", "SPECIFICATION Spec\nINVARIANTS WellFormed Emit\nCHECK_DEADLOCK FALSE\n", replay_to=vec, coverage=False, heap="2g")
+    if t.violation:
+        raise ToolError("MC_Literals: " + t.violation)
+    v.add_tlc("MC_Literals", t)
+    cases = vlib.read_ndjson(vec)
+    if len(cases) != t.nreplay or not cases:
+        raise ToolError("no literal cases")
+    texts = []
+    for c in cases:
+        lit = literal_text(c)
+        if c["kind"] == "str":
+            texts.append("Lit DEFINITIONS AUTOMATIC TAGS ::= BEGIN v1 UTF8String ::= %s v2 IA5String ::= %s "
+                         "S ::= SEQUENCE { a UTF8String DEFAULT %s, b IA5String DEFAULT %s, c BOOLEAN } END\n" % (lit, lit, lit, lit))
+            continue
+        texts.append("Lit DEFINITIONS AUTOMATIC TAGS ::= BEGIN v1 OCTET STRING ::= %s v2 BIT STRING ::= %s "
+                     "S ::= SEQUENCE { a OCTET STRING DEFAULT %s, b BIT STRING DEFAULT %s, c BOOLEAN } END\n" % (lit, lit, lit, lit))
+    fin, fout = os.path.join(d, "lit.in"), os.path.join(d, "lit.out")
+    with open(fin, "w") as f:
+        for tx in texts:
+            f.write(json.dumps({"text": tx}) + "\n")
+    p = run_bin("frontend", ["canon1", fin, fout])
+    if p.returncode != 0:
+        raise ToolError("frontend canon1 failed: " + p.stderr[-800:])
+    rows = vlib.read_ndjson(fout)
+    if len(rows) != len(cases):
+        raise ToolError("frontend canon1: %d results for %d modules" % (len(rows), len(cases)))
+    nbad = 0
+    for c, tx, r in zip(cases, texts, rows):
+        want = {"k": "oct", "v": c["octets"]} if c["kind"] != "str" else {"k": "str", "v": c["src"]}
+        if "error" in r:
+            why = "literal rejected: %s" % r["error"][:200]
+        else:
+            try:
+                got = [r["values"][0]["v"], r["values"][1]["v"], r["defs"][0]["t"]["comps"][0]["dflt"][0], r["defs"][0]["t"]["comps"][1]["dflt"][0]]
+            except (KeyError, IndexError):
+                got = []
+            where = ["OCTET STRING value assignment", "BIT STRING value assignment", "OCTET STRING DEFAULT", "BIT STRING DEFAULT"]
+            if c["kind"] == "str":
+                where = ["UTF8String value assignment", "IA5String value assignment", "UTF8String DEFAULT", "IA5String DEFAULT"]
+            bad = [w for w, g in zip(where, got) if norm(g) != norm(want)] if len(got) == 4 else ["model lacks the value assignments / defaults"]
+            why = None if not bad else "literal %s is carried as %s, declared octets %s (%s)" % (
+                literal_text(c), [g.get("v") for g in got if isinstance(g, dict)][:1], c["octets"], ", ".join(bad))
+        if why:
+            nbad += 1
+            if nbad <= 20:
+                v.violation(why, {"module": tx, "case": c, "parsed": r}, "literal_%03d.json" % nbad)
+    return len(cases)
 
 
 def module_level(v, d):
